@@ -31,6 +31,11 @@ fn case_json(input: &[u8], from: Option<Fmt>, to: Fmt, sched: &Sched, class: &st
 /// Classifies a disagreement as one of the recorded known findings, if it has
 /// exactly that finding's signature.
 fn classify(input: &[u8], from: Option<Fmt>, to: Fmt, s: &Outcome, r: &Outcome) -> Option<&'static str> {
+    // Under detection only: the YAML trial's verdict depends on read-ahead when a
+    // character YAML forbids lies beyond the point where the trial stops.
+    if from.is_none() && known::yaml_trial_read_ahead_shape(input) {
+        return Some("C09-yaml-trial-depends-on-read-ahead");
+    }
     let src = from.or_else(|| xt::verif::detect_slice(input).ok().flatten().map(Fmt::from_xt));
     // D2: a JSON scalar literal immediately followed by the start of another
     // value: strict from a slice, lenient from a reader.
